@@ -139,22 +139,23 @@ type retInfo struct {
 }
 
 type Frame struct {
-	vc      *VC
-	fn      *ssa.Function
-	id      string
-	env     map[ssa.Value]Val
-	params  map[string]Val
-	pnames  []string
-	entry   *State // state at function entry (for old())
-	depth   int
-	top     bool
-	fc      *FuncContract
-	defers  []*ssa.Defer
-	rets    []retInfo
-	site    string // label suffix for obligations inside inlined frames
-	sitePos token.Pos
-	rangeIdx map[*ssa.BasicBlock]*ssa.Alloc
-	edgeReach map[[2]int]*Term
+	vc           *VC
+	fn           *ssa.Function
+	id           string
+	env          map[ssa.Value]Val
+	params       map[string]Val
+	pnames       []string
+	entry        *State // state at function entry (for old())
+	depth        int
+	top          bool
+	fc           *FuncContract
+	defers       []*ssa.Defer
+	rets         []retInfo
+	site         string // label suffix for obligations inside inlined frames
+	sitePos      token.Pos
+	rangeIdx     map[*ssa.BasicBlock]*ssa.Alloc
+	edgeReach    map[[2]int]*Term
+	ghostResults []Val // results of the call a ghost "after" statement is attached to
 }
 
 type contrib struct {
@@ -376,14 +377,15 @@ func clauseLabel(c *Clause, i int) string {
 
 // ModSet describes what a code region may change.
 type ModSet struct {
-	Vars   map[string]bool // state var prefixes written on pre-existing objects (or locals/globals)
-	Allocs map[string]bool // roots ("H.T" / "M.T" / "MD.k") written only at fresh objects
-	Alloc  bool            // allocates at all
+	Elem   map[string][]*ssa.Alloc // memory roots ("M.T") written only through element stores into these local slice variables
+	Vars   map[string]bool         // state var prefixes written on pre-existing objects (or locals/globals)
+	Allocs map[string]bool         // roots ("H.T" / "M.T" / "MD.k") written only at fresh objects
+	Alloc  bool                    // allocates at all
 	Ghost  map[string]bool
 }
 
 func newModSet() *ModSet {
-	return &ModSet{Vars: map[string]bool{}, Allocs: map[string]bool{}, Ghost: map[string]bool{}}
+	return &ModSet{Vars: map[string]bool{}, Allocs: map[string]bool{}, Ghost: map[string]bool{}, Elem: map[string][]*ssa.Alloc{}}
 }
 
 func (m *ModSet) union(o *ModSet) {
@@ -401,9 +403,53 @@ func (m *ModSet) union(o *ModSet) {
 
 func (fr *Frame) modVarsOfBlocks(blocks map[*ssa.BasicBlock]bool) *ModSet {
 	ms := newModSet()
+	storedCells := map[*ssa.Alloc]bool{}
 	for b := range blocks {
 		for _, in := range b.Instrs {
+			if st, ok := in.(*ssa.Store); ok {
+				if a, ok := st.Addr.(*ssa.Alloc); ok {
+					storedCells[a] = true
+				}
+				// element store into a local slice variable: remember the variable instead of havocking the whole memory
+				if ia, ok := st.Addr.(*ssa.IndexAddr); ok {
+					if sl, ok := ia.X.Type().Underlying().(*types.Slice); ok {
+						if u, ok := ia.X.(*ssa.UnOp); ok && u.Op == token.MUL {
+							if cell, ok := u.X.(*ssa.Alloc); ok && !cell.Heap {
+								root := "M." + typeKey(sl.Elem())
+								ms.Elem[root] = append(ms.Elem[root], cell)
+								continue
+							}
+						}
+					}
+				}
+			}
+			if mu, ok := in.(*ssa.MapUpdate); ok {
+				if u, ok := mu.Map.(*ssa.UnOp); ok && u.Op == token.MUL {
+					if cell, ok := u.X.(*ssa.Alloc); ok && !cell.Heap {
+						mt := mu.Map.Type().Underlying().(*types.Map)
+						for _, root := range []string{"MD." + typeKey(mt), "MV." + typeKey(mt)} {
+							ms.Elem[root] = append(ms.Elem[root], cell)
+						}
+						continue
+					}
+				}
+			}
 			fr.vc.e.instrMods(in, ms, fr, map[*ssa.Function]bool{})
+		}
+	}
+	for root, cells := range ms.Elem {
+		bad := ms.Vars[root]
+		for _, c := range cells {
+			if storedCells[c] {
+				bad = true // the slice variable itself changes in the loop
+			}
+			if _, ok := fr.env[c]; !ok {
+				bad = true
+			}
+		}
+		if bad {
+			ms.Vars[root] = true
+			delete(ms.Elem, root)
 		}
 	}
 	return ms
@@ -418,14 +464,24 @@ func (fr *Frame) havoc(st, pre *State, reach *Term, ms *ModSet, hint string) {
 	if ms.Alloc {
 		na := vc.fresh("alloc."+hint, ArrSort("Int", "Bool"))
 		st.m[allocVar] = na
-		vc.cmds = append(vc.cmds, fmt.Sprintf("(assert (forall ((r Int)) (! (=> (select %s r) (select %s r)) :pattern ((select %s r)))))", preAlloc, na, preAlloc))
+		vc.cmds = append(vc.cmds, fmt.Sprintf("(assert (forall ((r Int)) (! (=> (select %s r) (select %s r)) :pattern ((select %s r)) :pattern ((select %s r)))))", preAlloc, na, preAlloc, na))
+		vc.cmds = append(vc.cmds, fmt.Sprintf("(assert (not (select %s 0)))", na))
 	}
 	// all state vars known so far + those implied by prefixes
 	names := vc.expandPrefixes(ms.Vars, fr)
+	var closed [][2]interface{}
 	for _, n := range names {
 		srt := vc.varSort(n)
-		st.m[n] = vc.fresh(n+"."+hint, srt)
+		nv := vc.fresh(n+"."+hint, srt)
+		st.m[n] = nv
+		closed = append(closed, [2]interface{}{n, nv})
 	}
+	defer func() {
+		al := vc.allocArr(st)
+		for _, c := range closed {
+			vc.closure(st, c[0].(string), c[1].(*Term), al)
+		}
+	}()
 	if len(ms.Allocs) > 0 {
 		for _, n := range vc.expandPrefixes(ms.Allocs, fr) {
 			if _, done := ms.Vars[n]; done {
@@ -438,7 +494,40 @@ func (fr *Frame) havoc(st, pre *State, reach *Term, ms *ModSet, hint string) {
 			old := vc.sv(pre, n, srt)
 			nv := vc.fresh(n+"."+hint, srt)
 			st.m[n] = nv
-			vc.cmds = append(vc.cmds, fmt.Sprintf("(assert (forall ((r Int)) (! (=> (select %s r) (= (select %s r) (select %s r))) :pattern ((select %s r)))))", preAlloc, nv, old, nv))
+			closed = append(closed, [2]interface{}{n, nv})
+			// unchanged on everything the region did not allocate (pre-existing objects, and references that stay unallocated such as nil)
+			vc.cmds = append(vc.cmds, fmt.Sprintf("(assert (forall ((r Int)) (! (=> (or (select %s r) (not (select %s r))) (= (select %s r) (select %s r))) :pattern ((select %s r)) :pattern ((select %s r)))))", preAlloc, vc.allocArr(st), nv, old, nv, old))
+		}
+	}
+	for root, cells := range ms.Elem {
+		if ms.Vars[root] {
+			continue
+		}
+		var bases []*Term
+		for _, c := range cells {
+			if reg, ok := fr.env[c]; ok && reg.LV != nil {
+				v := vc.load(pre, reg.LV)
+				if len(v.Leaves) == 4 {
+					bases = append(bases, v.sBase())
+				} else if len(v.Leaves) == 1 {
+					bases = append(bases, v.T()) // map reference
+				}
+			}
+		}
+		for _, n := range vc.e.expandPrefix(root, vc) {
+			if containsStr(names, n) {
+				continue
+			}
+			srt := vc.varSort(n)
+			old := vc.sv(pre, n, srt)
+			nv := vc.fresh(n+"."+hint, srt)
+			st.m[n] = nv
+			closed = append(closed, [2]interface{}{n, nv})
+			var diff []*Term
+			for _, b := range bases {
+				diff = append(diff, Not(Eq(A("b"), b)))
+			}
+			vc.cmds = append(vc.cmds, fmt.Sprintf("(assert (forall ((b Int)) (! (=> %s (= (select %s b) (select %s b))) :pattern ((select %s b)) :pattern ((select %s b)))))", And(diff...), nv, old, nv, old))
 		}
 	}
 	for g := range ms.Ghost {
